@@ -1952,6 +1952,18 @@ def denom_variants(k, tier):
             out.append(mk('d=%d broadcast from scalar Denominator' % v, ['%dull' % v], via_broadcast=True))
     if simd and tier != 'quick':
         out.append(mk('different divisor per lane', ['%dull' % v for v in lat]))
+    if tier != 'quick' and t.bits == 16 and t.W == 1 and not d['vec'] and k.family == 'denom_div':
+        # full domain for the 16-bit scalar denominators: every divisor d != 0 and every n, split by the bit length of |d|
+        # so that each case stays within SAT reach (60-220 s per case measured); the cases together cover all d != 0
+        sct = ELEM[t.elem][2]
+        mag = '(uint64_t)(uint16_t)(d_in < 0 ? -(int32_t)d_in : (int32_t)d_in)' if t.signed else '(uint64_t)d_in'
+        for kk in range(0, 16 if t.signed else 17):
+            c = mk('all d with ceil_log2(|d|) == %d' % kk, ['d_in'])
+            c.harness['pre'] = ['%s d_in = nondet_%s16();' % (sct, 'i' if t.signed else 'u'), '__CPROVER_assume(d_in != 0);',
+                                '__CPROVER_assume(spec_ceil_log2(%s, 16) == %du);' % (mag, kk)] + c.harness['pre']
+            c.partial = None
+            c.full_domain_split = True
+            out.append(c)
     return out
 
 
